@@ -47,6 +47,7 @@ def _child(job, wfd):
 
 def serve():
     from . import world  # noqa: F401  (installs seams + shim, imports cola; instantiates nothing)
+    from . import calls, crashenum, interp, panel, program, program18  # noqa: F401  (harness code only)
     import numpy  # noqa
     inp = sys.stdin
     out = sys.stdout
@@ -66,6 +67,10 @@ def serve():
         if pid == 0:
             os.close(r)
             try:
+                # anything cola (or a dependency) prints must not corrupt the job protocol on fd 1
+                dn = os.open(os.devnull, os.O_WRONLY)
+                os.dup2(dn, 1)
+                os.close(dn)
                 _child(job, w)
             finally:
                 os._exit(1)
